@@ -395,6 +395,20 @@ impl Explorer {
                 .collect();
             vios.extend(extra);
         }
+        // C04: "the regions [as_ptr, as_ptr+capacity) ... are contained in a single live allocation, so a write through one
+        // BytesMut is never visible through another handle": a heap overflow / write outside the block right after an
+        // operation on a BytesMut is a write through that handle outside its region
+        if let Some(last) = hist.last() {
+            let on_mut = format!("{:?}", last.k).starts_with('M');
+            if on_mut {
+                let extra: Vec<Vio> = vios
+                    .iter()
+                    .filter(|v| v.property == "C02" && (v.case == "heap-overflow" || v.case == "heap-underflow" || v.case == "write-after-free" || v.case == "put-under-state" || v.case == "uninit-slice-oob-write"))
+                    .map(|v| Vio { property: "C04", case: format!("write-outside-region:{}", v.case), msg: format!("{:?} wrote outside the capacity region of its BytesMut: {}", last.k, v.msg) })
+                    .collect();
+                vios.extend(extra);
+            }
+        }
         for v in &vios {
             self.report(v, hist, "");
         }
